@@ -99,7 +99,7 @@ func (e *Enc) call(in *ssa.Call, st *State) {
 				return
 			}
 		}
-		if pp := e.db.ifacePreserves[ifaceMethodKey(c.Method)]; len(pp) > 0 {
+		if pp := e.db.ifacePreservesFor(c.Method); len(pp) > 0 {
 			e.note("interface method %s (user code) is assumed to preserve %v", ifaceMethodKey(c.Method), pp)
 			e.havocAllPreserving(st, pp)
 		} else {
@@ -132,7 +132,15 @@ func (e *Enc) call(in *ssa.Call, st *State) {
 		}
 		if fld := pureFieldOf(c.Value); fld != "" && e.db.pureFields[fld] {
 			e.note("values of function-typed field %s are pure functions (checked at every store to the field in functions under contract)", fld)
-			e.set(in, e.freshVal("purefield."+fld, in.Type()))
+			argv := []*Val{fv}
+			for _, a := range c.Args {
+				argv = append(argv, e.val(a))
+			}
+			res := e.ufTerm("field."+fld, argv, in.Type())
+			if e.db.nonnilFields[fld] && len(res.c) == 2 {
+				e.assume(not(eq(res.c[0], "0")))
+			}
+			e.set(in, res)
 			return
 		}
 		if lf := localClosure(c.Value); lf != nil {
@@ -415,6 +423,9 @@ func (e *Enc) staticCallV(in *ssa.Call, callee *ssa.Function, args []ssa.Value, 
 	}
 	e.set(in, res)
 	e.siteResults[fmt.Sprintf("%s#%d", cn, e.lastOrd[cn])] = res
+	if pkgPathOf(callee) == "sort" {
+		e.sortedAfter(callee, args, argv, st)
+	}
 	if len(tinv) > 0 && len(args) > 0 {
 		env := &Env{e: e, st: st, old: &pre, vars: map[string]*Val{"self": argv[0]}}
 		for _, c := range tinv {
@@ -1007,4 +1018,79 @@ func leafOf(v *Val, elemT types.Type, i int) string {
 		return v.c[0]
 	}
 	return v.c[i]
+}
+
+// sortedAfter: the assumed contract of sort.Strings / sort.Slice / sort.SliceStable: afterwards no element is smaller
+// than an earlier one under the key order. For sort.Slice the key comes from the comparator closure's `sortedby`
+// declaration, which is proved against the closure's body when the closure is verified.
+func (e *Enc) sortedAfter(callee *ssa.Function, args []ssa.Value, argv []*Val, st *State) {
+	if len(args) == 0 {
+		return
+	}
+	var sl *Val
+	field := ""
+	switch callee.Name() {
+	case "Strings", "Ints":
+		sl = argv[0]
+	case "Slice", "SliceStable":
+		mi, ok := args[0].(*ssa.MakeInterface)
+		if !ok || len(args) < 2 {
+			return
+		}
+		sl = e.val(mi.X)
+		mc, ok := args[1].(*ssa.MakeClosure)
+		if !ok {
+			return
+		}
+		fn, _ := mc.Fn.(*ssa.Function)
+		if fn == nil {
+			return
+		}
+		con := e.db.byFunc[fname(fn)]
+		if con == nil || len(con.SortedBy) == 0 {
+			e.note("sort.%s with a comparator that has no sortedby declaration: nothing is assumed about the order", callee.Name())
+			return
+		}
+		if len(con.SortedBy) > 1 {
+			field = con.SortedBy[1]
+		}
+	default:
+		return
+	}
+	st2, ok := sl.typ.Underlying().(*types.Slice)
+	if !ok {
+		return
+	}
+	elemT := st2.Elem()
+	keyAt := func(idx string) *Val {
+		ref := app("elem", sl.c[0], idx)
+		v := e.loadAt(st, ref, elemT)
+		if field != "" {
+			s, ok := isStruct(elemT)
+			if !ok {
+				return nil
+			}
+			for i := 0; i < s.NumFields(); i++ {
+				if s.Field(i).Name() == field {
+					lo, hi := fieldRange(s, i)
+					return &Val{typ: s.Field(i).Type(), c: v.c[lo:hi]}
+				}
+			}
+			return nil
+		}
+		return v
+	}
+	ka, kb := keyAt("a"), keyAt("b")
+	if ka == nil || kb == nil || len(ka.c) != 1 {
+		return
+	}
+	var lt string
+	if isString(ka.typ) {
+		lt = e.strlt(kb.c[0], ka.c[0])
+	} else {
+		lt = e.numLess(kb, ka)
+	}
+	e.note("sort.%s is assumed to leave its slice sorted under the declared key order (permutation property not used)", callee.Name())
+	e.assume(fmt.Sprintf("(forall ((a Int) (b Int)) (! (=> (and (<= %s a) (< a b) (< b (+ %s %s))) (not %s)) :pattern (%s %s)))",
+		sl.c[1], sl.c[1], sl.c[2], lt, ka.c[0], kb.c[0]))
 }
